@@ -2,7 +2,7 @@
 //! helgoboss-midi, drives the shadow instances (solo, filtered twin, fresh twin, fork copies) and
 //! runs every history observer. All calls into the crate are API regions (apimon).
 
-use crate::apimon::{self, api, api_expect_panic, api_on, Panicked, L};
+use crate::apimon::{self, api, api_expect_panic, api_mode, Mode, Panicked, L};
 use crate::oracles::*;
 use crate::probes::Probes;
 use crate::rules::*;
@@ -77,6 +77,29 @@ impl ShortMessage for Panicky {
     }
 }
 
+/// A message object that contradicts itself: the byte getters answer `raw`, `to_structured()`
+/// answers the structured form of `st` (a translating wrapper, a stale cache). Not a valid short
+/// message; what a scanner makes of it is nobody's business - except that `reset()` afterwards
+/// still has to leave a scanner that is as new.
+struct Liar {
+    raw: [u8; 3],
+    st: StructuredShortMessage,
+}
+impl ShortMessage for Liar {
+    fn status_byte(&self) -> u8 {
+        self.raw[0]
+    }
+    fn data_byte_1(&self) -> U7 {
+        U7::new(self.raw[1])
+    }
+    fn data_byte_2(&self) -> U7 {
+        U7::new(self.raw[2])
+    }
+    fn to_structured(&self) -> StructuredShortMessage {
+        self.st
+    }
+}
+
 macro_rules! with_repr {
     ($raw:expr, $b:expr, $repr:expr, |$m:ident| $body:expr) => {
         match $repr {
@@ -132,9 +155,10 @@ fn feed_scn(s: &mut Scn, raw: &RawShortMessage, b: [u8; 3], repr: u8) -> Result<
 
 /// `hop`: every one of the three calls runs on another OS thread (see `apimon::api_hop`).
 fn feed_scn_on(hop: bool, s: &mut Scn, raw: &RawShortMessage, b: [u8; 3], repr: u8) -> Result<Res3, Panicked> {
-    let r_cc = api_on(hop, L::cc14_feed, || with_repr!(*raw, b, repr, |m| s.cc.feed(m)))?;
-    let r_pn = api_on(hop, L::pn_feed, || with_repr!(*raw, b, repr, |m| s.pn.feed(m)))?;
-    let r_po = api_on(hop, L::polling_feed, || with_repr!(*raw, b, repr, |m| s.po.feed(m)))?;
+    let mode = if hop { Mode::OtherThread } else { Mode::Plain };
+    let r_cc = api_mode(mode, L::cc14_feed, || with_repr!(*raw, b, repr, |m| s.cc.feed(m)))?;
+    let r_pn = api_mode(mode, L::pn_feed, || with_repr!(*raw, b, repr, |m| s.pn.feed(m)))?;
+    let r_po = api_mode(mode, L::polling_feed, || with_repr!(*raw, b, repr, |m| s.po.feed(m)))?;
     Ok((r_cc, r_pn, r_po))
 }
 
@@ -142,23 +166,23 @@ fn feed_scn_on(hop: bool, s: &mut Scn, raw: &RawShortMessage, b: [u8; 3], repr: 
 /// other properties are owed an answer too: the call "returned nothing", which is what the
 /// caller of a caught panic is left with, and every observer judges that. The run goes on (the
 /// scanner is still a value the host holds).
-fn feed_main(hop: bool, s: &mut Scn, raw: &RawShortMessage, b: [u8; 3], repr: u8) -> (Res3, Option<L>) {
+fn feed_main(hop: Mode, s: &mut Scn, raw: &RawShortMessage, b: [u8; 3], repr: u8) -> (Res3, Option<L>) {
     let mut pan = None;
-    let r_cc = match api_on(hop, L::cc14_feed, || with_repr!(*raw, b, repr, |m| s.cc.feed(m))) {
+    let r_cc = match api_mode(hop, L::cc14_feed, || with_repr!(*raw, b, repr, |m| s.cc.feed(m))) {
         Ok(r) => r,
         Err(Panicked(l)) => {
             pan = Some(l);
             None
         }
     };
-    let r_pn = match api_on(hop, L::pn_feed, || with_repr!(*raw, b, repr, |m| s.pn.feed(m))) {
+    let r_pn = match api_mode(hop, L::pn_feed, || with_repr!(*raw, b, repr, |m| s.pn.feed(m))) {
         Ok(r) => r,
         Err(Panicked(l)) => {
             pan = Some(l);
             None
         }
     };
-    let r_po = match api_on(hop, L::polling_feed, || with_repr!(*raw, b, repr, |m| s.po.feed(m))) {
+    let r_po = match api_mode(hop, L::polling_feed, || with_repr!(*raw, b, repr, |m| s.po.feed(m))) {
         Ok(r) => r,
         Err(Panicked(l)) => {
             pan = Some(l);
@@ -315,6 +339,10 @@ struct PoTrack {
 struct Fork {
     copy: Scn,
     remaining: usize,
+    /// false once the original went through an aborted feed the copy never saw: results are
+    /// still compared, the end states no longer (a conservative dirty mark is not a difference
+    /// the property speaks of)
+    compare_end_state: bool,
 }
 
 /// A host-side checkpoint of every scanner instance together with the observers' view of them.
@@ -381,6 +409,8 @@ pub struct Exec<'a> {
     w_c17: bool,
     /// number of upcoming calls on the main instance that run on another OS thread
     hop: u32,
+    /// number of upcoming calls on the main instance made from a destructor during unwinding
+    unwinding: u32,
     /// a call on the main instance panicked during the current step (allocation by the panic
     /// machinery is then not blamed on C18.alloc)
     main_panicked: bool,
@@ -466,6 +496,7 @@ impl<'a> Exec<'a> {
             w_c17_reset_inflight: false,
             w_c17: false,
             hop: 0,
+            unwinding: 0,
             main_panicked: false,
         };
         e.p.runs = 1;
@@ -504,6 +535,9 @@ impl<'a> Exec<'a> {
                             continue;
                         }
                         e.p.steps += 1;
+                        if e.sink.muted {
+                            e.p.events_not_judged_after_a_liar += 1;
+                        }
                         let r = e.step(ev);
                         e.resync_clock();
                         e.sink.evals[R::C18_panic as usize] += 1;
@@ -758,20 +792,52 @@ impl<'a> Exec<'a> {
             Ok(_) => m.po = before.po,
             Err(()) => unwound += 1,
         }
+        if unwound > 0 {
+            for f in self.forks.iter_mut() {
+                f.compare_end_state = false;
+            }
+        }
         self.p.aborted_feed_calls_unwound += unwound;
         self.p.aborted_feed_calls_completed_and_rolled_back += 3 - unwound;
         self.sig.b(0x70);
         Ok(())
     }
 
+    /// A self-contradicting message goes to the main instance only. From here to the next reset or
+    /// restore nothing is judged (no model can say what the scanners should make of it, and a
+    /// panic or allocation on such input is not the crate's fault either); the reset itself is
+    /// judged again: whatever was fed, `reset()` leaves a scanner equal to a new one (C17).
+    fn do_liar(&mut self, raw: [u8; 3], st: [u8; 3]) -> Result<(), Panicked> {
+        let ok = |b: &[u8; 3]| b[0] >= 0x80 && b[1] < 128 && b[2] < 128;
+        if !ok(&raw) || !ok(&st) {
+            return Ok(());
+        }
+        let Ok(st_raw) = RawShortMessage::from_bytes((st[0], U7::new(st[1]), U7::new(st[2]))) else { return Ok(()) };
+        let msg = Liar { raw, st: st_raw.to_structured() };
+        self.p.liar_feeds += 1;
+        self.sink.muted = true;
+        clk::set_now(self.now);
+        let m = &mut self.main;
+        // whatever happens in there, including a panic, is not judged
+        let _ = api_expect_panic(L::cc14_feed, || m.cc.feed(&msg));
+        let _ = api_expect_panic(L::pn_feed, || m.pn.feed(&msg));
+        let _ = api_expect_panic(L::polling_feed, || m.po.feed(&msg));
+        self.sig.b(0x72);
+        Ok(())
+    }
+
     /// Does the next call on the main instance run on another OS thread?
-    fn take_hop(&mut self) -> bool {
+    fn take_hop(&mut self) -> Mode {
         if self.hop > 0 {
             self.hop -= 1;
             self.p.calls_on_another_thread += 1;
-            true
+            Mode::OtherThread
+        } else if self.unwinding > 0 {
+            self.unwinding -= 1;
+            self.p.calls_from_an_unwinding_destructor += 1;
+            Mode::Unwinding
         } else {
-            false
+            Mode::Plain
         }
     }
 
@@ -875,6 +941,12 @@ impl<'a> Exec<'a> {
             Ev::Snapshot => self.do_snapshot(),
             Ev::FeedAbort { b, which } => self.do_feed_abort(*b, *which),
             Ev::Bulk { n, cycle } => self.do_bulk(*n, cycle),
+            Ev::Unwinding { n } => {
+                self.p.unwinding_windows += 1;
+                self.unwinding = *n as u32;
+                Ok(())
+            }
+            Ev::Liar { raw, st } => self.do_liar(*raw, *st),
             Ev::Hop { n } => {
                 self.p.thread_hop_windows += 1;
                 self.hop = *n as u32;
@@ -1026,7 +1098,7 @@ impl<'a> Exec<'a> {
         let timeout = self.timeout;
         let hop = self.take_hop();
         let m = &mut self.main;
-        api_on(hop, L::scanner_reset, || {
+        api_mode(hop, L::scanner_reset, || {
             m.cc.reset();
             m.pn.reset();
             m.po.reset();
@@ -1034,6 +1106,11 @@ impl<'a> Exec<'a> {
         let fresh = new_scn(timeout)?;
         let m = &self.main;
         let (a, b, c) = api(L::scanner_eq, || (m.cc == fresh.cc, m.pn == fresh.pn, m.po == fresh.po))?;
+        if self.sink.muted {
+            // a self-contradicting message had been fed: from this reset on everything is judged again
+            self.sink.muted = false;
+            self.p.resets_judged_after_a_liar += 1;
+        }
         self.sink.check(R::C17_equal, a && b && c, || format!("after reset(): cc14 == new(): {}, (N)RPN == new(): {}, polling == new({:?}): {}", a, b, timeout, c));
         self.m_cc = Cc14Model::default();
         self.m_pn = PnModel::default();
@@ -1076,8 +1153,10 @@ impl<'a> Exec<'a> {
             if self.forks[i].remaining <= 1 {
                 let f = self.forks.swap_remove(i);
                 let m = &self.main;
-                let eq = api(L::scanner_eq, || f.copy.cc == m.cc && f.copy.pn == m.pn && f.copy.po == m.po)?;
-                self.sink.check(R::C17_copy, eq, || "a copy driven in lockstep with the original ended in a different state".into());
+                if f.compare_end_state {
+                    let eq = api(L::scanner_eq, || f.copy.cc == m.cc && f.copy.pn == m.pn && f.copy.po == m.po)?;
+                    self.sink.check(R::C17_copy, eq, || "a copy driven in lockstep with the original ended in a different state".into());
+                }
             } else {
                 self.forks[i].remaining -= 1;
                 i += 1;
@@ -1087,6 +1166,10 @@ impl<'a> Exec<'a> {
     }
 
     fn do_snapshot(&mut self) -> Result<(), Panicked> {
+        if self.sink.muted {
+            // the observers' view is out of step with the main instance: not a state worth keeping
+            return Ok(());
+        }
         self.p.snapshots += 1;
         self.sig.b(0x32);
         let (m, solo, twin, fresh) = (&self.main, &self.solo, &self.twin, &self.fresh);
@@ -1140,6 +1223,8 @@ impl<'a> Exec<'a> {
         self.m_cc = snap.m_cc.clone();
         self.m_pn = snap.m_pn.clone();
         self.obs = snap.obs.clone();
+        // every instance and every observer is back at the checkpoint (taken while in step)
+        self.sink.muted = false;
         let m = &self.main;
         let eq = api(L::scanner_eq, || m.cc == snap.main.cc && m.pn == snap.main.pn && m.po == snap.main.po)?;
         self.sink.check(R::C17_copy, eq, || "a restored copy does not compare equal to the checkpoint".into());
@@ -1243,7 +1328,7 @@ impl<'a> Exec<'a> {
         let eq = api(L::scanner_eq, || saved.cc == m.cc && saved.pn == m.pn && saved.po == m.po)?;
         self.sink.check(R::C17_copy, eq, || "feeding copies changed the original".into());
         if k > 0 && self.forks.len() < 4 {
-            self.forks.push(Fork { copy: lock, remaining: k as usize });
+            self.forks.push(Fork { copy: lock, remaining: k as usize, compare_end_state: true });
         }
         Ok(())
     }
@@ -1257,7 +1342,7 @@ impl<'a> Exec<'a> {
         let before = api(L::scanner_copy, || m.po)?;
         let t0 = self.now;
         clk::set_now(t0);
-        let r = match api_on(hop, L::polling_poll, || m.po.poll(chn)) {
+        let r = match api_mode(hop, L::polling_poll, || m.po.poll(chn)) {
             Ok(r) => r,
             Err(Panicked(l)) => {
                 // as for feeds: the caller of a caught panic got nothing; every observer judges that
